@@ -89,12 +89,15 @@ type SymInfo struct {
 	Set    bool
 	Target string // for fk / fk-set: target store
 	Map    bool
+	// KidOnly: the set is typed to the child store layered on the target: sub-queries over it see only the members that
+	// have child data (the stored list itself may hold other ids of the parent store)
+	KidOnly bool
 }
 
 var symbols = map[string]map[string]SymInfo{
 	Things: {"id": {Type: TStr}, "uk": {Type: TStr}, "s": {Type: TStr}, "ism": {Type: TInt}, "ibig": {Type: TInt}, "flt": {Type: TFloat}, "b": {Type: TBool}, "t": {Type: TTime}, "grp": {Type: TStr},
 		"tags": {Type: TStr, Set: true}, "nums": {Type: TStr, Set: true}, "owner": {Type: TStr, Target: Owners}, "friends": {Type: TStr, Set: true, Target: Others}, "meta": {Type: TAny, Map: true}},
-	Owners: {"id": {Type: TStr}, "name": {Type: TStr}, "age": {Type: TInt}, "active": {Type: TBool}, "tags": {Type: TStr, Set: true}, "things": {Type: TStr, Set: true, Target: Things}},
+	Owners: {"kidlist": {Type: TStr, Set: true, Target: Things, KidOnly: true}, "id": {Type: TStr}, "name": {Type: TStr}, "age": {Type: TInt}, "active": {Type: TBool}, "tags": {Type: TStr, Set: true}, "things": {Type: TStr, Set: true, Target: Things}},
 	Others: {"id": {Type: TStr}, "name": {Type: TStr}, "rank": {Type: TInt}, "tags": {Type: TStr, Set: true}, "things": {Type: TStr, Set: true, Target: Things}},
 }
 
@@ -266,5 +269,10 @@ func (w *World) DeriveBackRefs() {
 				or.V["things"] = append(or.V["things"].([]string), id)
 			}
 		}
+	}
+	// owners.kidlist (only stored when the schema layers a child store on things): the owner's things, with and without
+	// child data
+	for _, o := range w.Rows[Owners] {
+		o.V["kidlist"] = append([]string(nil), o.V["things"].([]string)...)
 	}
 }
